@@ -13,3 +13,5 @@ import FpVerif.Properties.C20
 #print axioms Fp.C20.pushRR_out
 #print axioms Fp.C20.account_balanced
 #print axioms Fp.C20.conservation_rr
+#print axioms Fp.C20.tree_rooted
+#print axioms Fp.C20.no_cycle
